@@ -17,7 +17,7 @@ LEVEL = "exploration"
 RULE = (
     "G cases (all families except concatenating id) with a non-empty subset of argument positions replaced by instrumented factories of 6 signature classes (positional, optional "
     "keywords, **kwargs, callable object, functools.partial, builtin without signature); call sequences cold -> warm -> other factory object of the same signature -> cold after "
-    "cache_clear -> graph=True -> under-constrained variant -> misbehaving factory (wrong type / rank / shape / broadcast-compatible shape); distinct by (op, skeleton, positions, "
+    "cache_clear -> graph=True -> under-constrained variant -> misbehaving factory (wrong type / rank / shape / broadcast-compatible shape / numpy or Python scalar at a 0-d position); distinct by (op, skeleton, positions, "
     "signature classes); non-trivial if >= 1 factory was invoked"
 )
 ASSUMPTIONS = ["the factory's return value is the case's own data, so the plain-tensor call is the value oracle", "S's propagation decides which axes become undetermined once a shape is withheld"]
@@ -282,12 +282,16 @@ def run(spec, out):
                 out.violation({"kind": "factory-underconstrained-wrong-exception", "exc": type(e).__name__, **exc_site(e)}, {**cj, "message": str(e)[:300]}, f"under-constrained factory call: {type(e).__name__}: {str(e)[:120]}")
             check_log(log, "under-constrained", declared, expect_calls=False)
         # misbehaving factories
-        p = rng.choice(positions)
+        zero_d = [q for q in positions if np.ndim(case.tensors[q]) == 0]
+        p = rng.choice(zero_d) if zero_d and rng.random() < 0.7 else rng.choice(positions)
         good = np.array(case.tensors[p], copy=True)
         bads = [("wrong-type", [1.0] if good.ndim else "x"), ("wrong-type-none", None), ("wrong-rank", good.reshape(good.shape + (1,))), ("wrong-shape", np.zeros(tuple(s + 1 for s in good.shape) if good.ndim else (2,)))]
         if good.ndim and any(s > 1 for s in good.shape):
             bshape = tuple(1 if (s > 1 and j == [j2 for j2, s2 in enumerate(good.shape) if s2 > 1][0]) else s for j, s in enumerate(good.shape))
             bads.append(("broadcast-compatible-shape", np.zeros(bshape, dtype=good.dtype)))
+        if good.ndim == 0:
+            # a scalar position: numpy scalars and Python numbers have the right "shape" but are not tensors of the backend
+            bads += [("numpy-scalar", good[()]), ("python-scalar", good.item())]
         for label, badval in bads:
             log = Log()
             datas = {i: (badval if i == p else np.array(case.tensors[i], copy=True)) for i in positions}
@@ -302,7 +306,7 @@ def run(spec, out):
 
 def finalize(agg, tier, seed):
     c = agg.counters
-    for k in ("factory_invocations_checked", "result_equals_plain", "warm:hit", "cold:miss", "cold-again:miss", "underconstrained_rejected", "misbehaving_rejected:wrong-shape"):
-        if c.get(k, 0) < 30:
+    for k in ("factory_invocations_checked", "result_equals_plain", "warm:hit", "cold:miss", "cold-again:miss", "underconstrained_rejected", "misbehaving_rejected:wrong-shape", "misbehaving_rejected:numpy-scalar"):
+        if c.get(k, 0) < (30 if "numpy-scalar" not in k else 5):
             agg.inconclusive.append(f"monitor counter {k} = {c.get(k, 0)}")
     return {}
